@@ -2581,3 +2581,50 @@ def session_ended_with_close_before_files_change(ctx, p):
     closes = sorted(set(c for c in F.direct_callers_of('db::Db::close')))
     ctx.ob(p + '0 sessions-ended-with-close', 'anchor', 'db::Db::close', 'the administration and migration code ends its sessions with Db::close', len(closes) >= 1, str(closes))
     ctx.info['sessions.dropped_on_success_paths'] = n
+
+
+def shutdown_drains_every_flushed_log(ctx, p):
+    """F80 (C17, C03). `enact_logs` answers "no more work" at the end of every log FILE (Log::read_next returns None when the file
+    it was reading ends; the next call takes the next file off the hand-over queue). A drain written `while enact_logs()? {}`
+    therefore enacts one file. The final drain of kill_logs has to go on until the hand-over queue is empty: with more than three
+    flushed files waiting (a commit worker that lags behind the flush worker) the rest stayed on disk, `Db::close` reported
+    success, and an administration call that closes its session and then deletes a column had those logs replayed into the
+    emptied column at the next open."""
+    F = ctx.F
+    k = ctx.body('db::DbInner::kill_logs')
+    if not k:
+        return
+    none = lib.prune_option_field(k, '.DbInner.bg_err', keep_some=False)
+    en = k.call_sites('db::DbInner::enact_logs')
+    fl = k.call_sites('db::DbInner::flush_logs')
+    ca = [c for c in k.call_sites('db::DbInner::clean_all_logs') if k.find_path([0], {c}, removed_edges=frozenset(none)) is not None]
+    # the emptiness test: a call that reads Log.read_queue (Log::has_log_files_to_read or an equivalent helper)
+    def reads_queue(n):
+        b = F.bodies.get(n)
+        return b is not None and '{closure' not in n and str(b.locals[0]) == 'bool' and any('.Log.read_queue' in lib.receiver_fields(b, t, 0) for _, t in b.calls() if t['a'])
+    hs = [bi for bi, t in k.calls() if bi in k.normal_blocks() and any(reads_queue(n) for n in call_names(t))]
+    last_fl = [f for f in fl if not any(g in k.reaches(f) and g != f for g in fl)] or fl
+    ctx.ob(p + '0 final-drain-anchor', 'anchor', k.path, 'kill_logs flushes, enacts and then cleans the logs on its regular branch', bool(en) and bool(last_fl) and len(ca) >= 1, 'enact %s flush %s clean %s' % (en, fl, ca))
+    if not (en and last_fl and ca):
+        return
+    ok, det = False, 'no test of the hand-over queue (Log.read_queue) between the last flush and the cleaning of the logs'
+    for h in hs:
+        w = k.find_path(list(k.succ(last_fl[-1])), set(ca), removed={h}, removed_edges=frozenset(none))
+        if w is not None:
+            det = 'the logs are cleaned without looking at the hand-over queue: ' + lib.short_path(k, w)
+            continue
+        edges = lib.bool_outcome_edges(k, [h])
+        if not edges:
+            det = 'the answer of the queue test is not branched on'
+            continue
+        good = True
+        for sw, tr, fa in edges:
+            # "there are files to read" must lead back to the applier before anything is cleaned
+            w2 = k.find_path([tr[1]], set(ca), removed=set(en), removed_edges=frozenset(none))
+            if w2 is not None:
+                good, det = False, 'with files still queued the logs are cleaned: ' + lib.short_path(k, w2)
+        if good:
+            ok = True
+    ctx.ob(p + 'a final-drain-empties-the-hand-over-queue', 'K3-loop-exit', k.path,
+           'after the last flush, kill_logs reaches the cleaning of the logs only through a test of the hand-over queue, and with files still queued it goes back to enact_logs (enact_logs reports the end of every log file, not the end of the work)',
+           ok, '' if ok else det, k.loc(ca[0]))
